@@ -302,11 +302,15 @@ def _check_track_seq(case, res):
     src = seq if case["kind"] == "list" else (x for x in seq)
     got = []
     completed_seen = []
-    it = p.track(src, total=n if case["kind"] == "generator" else None)
-    for x in it:
-        got.append(x)
-        completed_seen.append(p.tasks[0].completed)
     res.evaluations += 1
+    try:
+        it = p.track(src, total=n if case["kind"] == "generator" else None)
+        for x in it:
+            got.append(x)
+            completed_seen.append(p.tasks[0].completed)
+    except Exception as e:      # an explicit total (0 included) and a sized list are all track() is entitled to need
+        res.violate("track/exception/%s" % type(e).__name__, case, "track() over %d elements (%s) raised %r" % (n, case["kind"], e))
+        return
     if got != seq:
         res.violate("track/elements", case, "yielded %r from %r" % (got, seq))
     if n and p.tasks[0].completed != n:
@@ -317,6 +321,72 @@ def _check_track_seq(case, res):
     if completed_seen != list(range(0, n)):
         res.violate("track/advance-before-yield", case, "completed seen at each yield: %r" % completed_seen)
     res.sig(("track", n, case["kind"]), nontrivial=n > 0)
+
+
+# ----------------------------------------------------------------------------- track() with its real helper thread
+# Three consecutive track() runs with auto_refresh=True (the _TrackThread path) in ONE cold process (a fork of a
+# zygote that never ran track(), vf/cold.py), with real threads and events: whatever the helper keeps between
+# runs -- class attributes, module globals -- shows in the second and third run.  The final completed count does
+# not depend on timing.
+def _real_setup():
+    import rich.progress  # noqa: imported, never called
+
+
+def _track_real_child(n, kind, mode):
+    import signal
+    from rich.console import Console
+    from rich.progress import Progress
+
+    def mk():
+        c = Console(file=io.StringIO(), width=40, height=10, force_terminal=False, color_system=None, _environ={})
+        return Progress("{task.description}", console=c, auto_refresh=True, redirect_stdout=False, redirect_stderr=False)
+
+    class Hang(Exception):
+        pass
+
+    def on_alarm(*_):
+        raise Hang()
+    signal.signal(signal.SIGALRM, on_alarm)
+    out = []
+    shared = mk()
+    for run in range(3):
+        p = shared if mode == "same-progress" else mk()
+        seq = list(range(10, 10 + n))
+        src = seq if kind == "list" else (x for x in seq)
+        signal.alarm(20)
+        try:
+            got = [x for x in p.track(src, total=n if kind != "list" else None, update_period=0.005)]
+            task = p.tasks[-1]
+            out.append({"run": run, "got": got, "seq": seq, "completed": task.completed, "error": None})
+        except Hang:
+            out.append({"run": run, "got": None, "seq": seq, "completed": None, "error": "hang"})
+            break
+        except Exception as e:
+            out.append({"run": run, "got": None, "seq": seq, "completed": None, "error": "%s: %s" % (type(e).__name__, e)})
+        finally:
+            signal.alarm(0)
+    return out
+
+
+def _track_real_cases():
+    for n in (0, 1, 3):
+        for kind in ("list", "generator"):
+            for mode in ("fresh-progress", "same-progress"):
+                yield {"part": "track-real", "n": n, "kind": kind, "mode": mode}
+
+
+def _check_track_real(case, res, zy):
+    out = zy.call("_track_real_child", case["n"], case["kind"], case["mode"])
+    res.evaluations += len(out)
+    for o in out:
+        when = "first-run" if o["run"] == 0 else "later-run"
+        if o["error"]:
+            res.violate("track-real/%s/%s" % (when, o["error"].split(":")[0]), case, "run %d: %s" % (o["run"], o["error"]))
+        elif o["got"] != o["seq"]:
+            res.violate("track-real/%s/elements" % when, case, "run %d yielded %r from %r" % (o["run"], o["got"], o["seq"]))
+        elif o["completed"] != case["n"]:
+            res.violate("track-real/%s/completed" % when, case, "run %d: completed %r after %d elements" % (o["run"], o["completed"], case["n"]))
+    res.sig(("track-real", case["n"], case["kind"], case["mode"], tuple(o["completed"] for o in out)), nontrivial=case["n"] > 0)
 
 
 # ----------------------------------------------------------------------------- concurrent part
@@ -335,6 +405,8 @@ def _cops():
         "adv_a3": lambda e: e["p"].advance(e["ids"]["a"], 3),
         "adv_b5": lambda e: e["p"].advance(e["ids"]["b"], 5),
         "stop_start": lambda e: (e["p"].stop_task(e["t"]), e["p"].start_task(e["t"])),
+        "adv3": lambda e: e["p"].advance(e["t"], 3),           # total is 3: this one finishes the task
+        "reset_c1": lambda e: e["p"].reset(e["t"], completed=1),
     }
 
 
@@ -350,11 +422,14 @@ CH = {
     "P8": {"A": ["adv1"], "B": ["upd_adv1"], "X": ["adv2"]},
     "P9": {"A": ["add_a", "adv_a3"], "B": ["add_b", "adv_b5"]},
     "P10": {"A": ["adv1"], "B": ["stop_start"]},
+    "P11": {"A": ["adv3"], "B": ["reset"]},                # a finishing advance against a reset
+    "P12": {"A": ["upd_c5"], "B": ["reset_c1"]},           # a finishing update against a reset
+    "P13": {"A": ["adv3"], "B": ["upd_tot4"]},             # a finishing advance against a total change
 }
 CPLAN = {
-    "quick": [(h, "line", 2) for h in ("P1", "P2", "P3", "P4", "P5", "P7", "P10")] + [(h, "line", 1) for h in ("P6", "P8", "P9")]
+    "quick": [(h, "line", 2) for h in ("P1", "P2", "P3", "P4", "P5", "P7", "P10")] + [(h, "line", 1) for h in ("P6", "P8", "P9", "P11", "P12", "P13")]
              + [(h, "coarse", 2) for h in CH],
-    "thorough": [(h, "line", 3) for h in ("P1", "P3", "P4", "P5")] + [(h, "line", 2) for h in ("P2", "P6", "P7", "P8", "P9", "P10")]
+    "thorough": [(h, "line", 3) for h in ("P1", "P3", "P4", "P5")] + [(h, "line", 2) for h in ("P2", "P6", "P7", "P8", "P9", "P10", "P11", "P12", "P13")]
                 + [(h, "coarse", 3) for h in CH],
 }
 _SKIP = {}
@@ -540,6 +615,7 @@ def plan(tier, seed):
     for i in range(4):
         shards.append({"part": "seq2", "i": i, "n": 4, "depth": depth2})
     shards.append({"part": "track"})
+    shards.append({"part": "track-real"})
     for n in range(0, 3 if tier == "quick" else 5):
         for kind in ("list", "generator"):
             for i in range(4):
@@ -564,6 +640,15 @@ def run_shard(sh, tier, seed):
         for case in _track_cases():
             _check_track_seq(case, res)
         res.sample({"part": "track", "n": 3, "kind": "generator"}, limit=1)
+    elif part == "track-real":
+        from .. import cold
+        zy = cold.Zygote("vf.checks.c12", "_real_setup")
+        try:
+            for case in _track_real_cases():
+                _check_track_real(case, res, zy)
+        finally:
+            zy.close()
+        res.sample({"part": "track-real", "n": 3, "kind": "generator", "mode": "fresh-progress", "runs": 3}, limit=1)
     elif part == "track-auto":
         _run_track_auto(sh, res)
     elif part == "conc":
@@ -575,9 +660,29 @@ def finish(tier, seed, res):
     for key, (size, cj, detail) in list(res.violations.items()):
         case = json.loads(cj)
         if case.get("part") in ("conc", "track-auto"):
-            a, b = replay(case), replay(case)
-            if a != b or key not in [k for k, _ in a]:
-                raise MachineryError("schedule replay not reproducible for %s: %r vs %r" % (key, a, b))
+            def keys():
+                return sorted({k for k, _ in replay(case)})     # details may hold addresses; the keys are the verdict
+            a, b = keys(), keys()
+            if a == b and key in a:
+                continue
+            # the parent had not run this harness before: a finding that is absent in the first replay and present,
+            # identically, in the second and third depends on an earlier run in the same process (state kept between
+            # executions) -- deterministic, and a violation in its own right
+            c = keys()
+            if b == c and key in b:
+                continue
+            stable = b if (b == c and b) else (a if (a == b and a) else None)
+            if stable:
+                # the schedule violates the property every time it is replayed, but under other keys than the worker
+                # saw (its process had a different past): report what reproduces, not what does not
+                size, cj, detail = res.violations.pop(key)
+                res.vcount.pop(key, None)
+                res.count("unreproduced_keys_replaced")
+                for k2 in stable:
+                    if k2 not in res.violations:
+                        res.violate(k2, case, "replayed in the parent: %s (the worker reported %s: %s)" % (k2, key, detail[:200]))
+                continue
+            raise MachineryError("schedule replay not reproducible for %s: %r vs %r vs %r" % (key, a, b, c))
 
 
 def describe(tier, seed, res):
@@ -586,7 +691,7 @@ def describe(tier, seed, res):
         "rule": "sequential: BFS from each of 16 add_task variants over {advance x5, update x17, reset x8, start_task, stop_task, "
                 "tick x2} with dedup on (total, completed, relative start/stop times, finished_time, relative samples); two-task "
                 "BFS at smaller depth; track() over lists/generators of length 0..4 without and (under the scheduler, timeout "
-                "budget 2) with the helper thread. concurrent: harnesses P1..P10 (2-3 threads, mutators on one task; P9 two threads each adding and advancing their own task) -- every "
+                "budget 2) with the helper thread. track() with its real helper thread: three consecutive runs in one cold process (fresh and shared Progress), final counts. concurrent: harnesses P1..P13 (2-3 threads, mutators on one task; P9 two threads each adding and advancing their own task; P11-P13 a finishing advance/update against reset / total change) -- every "
                 "schedule within the preemption bound at bytecode granularity inside the mutators. non-trivial = the task "
                 "finished or has a speed estimate (sequential), every schedule (concurrent); distinct = outcome signatures.",
         "assumptions": [
@@ -624,6 +729,13 @@ def replay(case):
         return sorted(set(out))
     if part == "track":
         _check_track_seq(case, res)
+    elif part == "track-real":
+        from .. import cold
+        zy = cold.Zygote("vf.checks.c12", "_real_setup")
+        try:
+            _check_track_real(case, res, zy)
+        finally:
+            zy.close()
     elif part == "conc":
         sched.install()
         _progress_only()
